@@ -63,6 +63,7 @@ DEFAULT_KNOBS = dict(
     p_event_obj=0.0,
     p_event_decl=0.0,
     p_decl_style=0.0,
+    p_multi_source=0.0,
     p_or_group=0.0,
     p_devent=0.0,
     p_attach_style=0.0,
@@ -353,6 +354,21 @@ def gen_program(rnd, k, idx=0, name=None):
                 form = rnd.choice(["{a} and {b}", "{a} or {b}", "not {a}", "{a} and not {b}",
                                    "not {a} or {b}"])
                 t.setdefault("cond", []).append(form.format(a=a, b=b))
+    if rnd.random() < k["p_multi_source"]:
+        # ``c.from_(a, b, ...)``: one declaration, one transition per source state (same target, same
+        # events, guards and actions)
+        cands = [t for t in trans if not any(t.get(f) for f in ("assign", "orgroup", "devent", "internal"))]
+        others = lambda t: [s_ for s_ in nonfinal if s_ != t["src"]]  # noqa: E731
+        cands = [t for t in cands if others(t)]
+        if cands:
+            import copy as _copy
+
+            t = rnd.choice(cands)
+            t2 = _copy.deepcopy(t)
+            t2["src"] = rnd.choice(others(t))
+            t["msrc"] = t2["msrc"] = f"m{trans.index(t)}"
+            t["decl"] = t2["decl"] = "from"
+            trans.insert(trans.index(t) + 1, t2)
     assign_styles(rnd, prog, k["p_attach_style"])
     if k["p_prop_guard"] > 0:
         # guards given as the name of a PROPERTY (no call, no arguments): evaluated by reading it
